@@ -315,6 +315,39 @@ theorem no_panic_renderPackage (phases : List String) (objs : List PObj) :
   · simp
   · rename_i hq; exact absurd hq hg
 
+/-! ## CEL conditions: `CelCtx.evaluate` and the three places an expression can sit -/
+
+/-- **no_panic_celEvaluate**: whatever the CEL program evaluates to — a value of ANY JSON type or
+an evaluation error — `CelCtx.evaluate` returns a bool or an error; the type assertion
+`out.Value().(bool)` is unreachable behind the run-time check of `out.Type()`. -/
+theorem no_panic_celEvaluate (v : Option JVal) : celEvaluate v ≠ .panic := by
+  unfold celEvaluate
+  cases v with
+  | none => simp
+  | some v => cases v <;> simp
+
+/-- … and it returns `ok b` exactly for the run-time value `bool b`, an error for everything else. -/
+theorem celEvaluate_eq (v : Option JVal) :
+    celEvaluate v = (match v with | some (.bool b) => .ok b | _ => .err) := by
+  unfold celEvaluate
+  cases v with
+  | none => rfl
+  | some v => cases v <;> rfl
+
+/-- **no_panic_celPlace**: for every expression of the fragment (in particular those of static
+type dyn: bare lookups, conditionals over lookups), every context (run-time values of every JSON
+type) and each of the three places, filtering returns a result or an error, never panics. -/
+theorem no_panic_celPlace (place : String) (ctx : JVal) (e : CelExpr) : celPlace place ctx e ≠ .panic :=
+  map_ne_panic _ _ (no_panic_celEvaluate _)
+
+/-- Why the check must inspect the RUN-TIME type: with the result type checked on the static
+output type of the AST (which is dyn for `config.enabled`, and dyn is assignable to bool), the
+assertion is reachable — the string value "true" makes it panic. -/
+theorem static_result_check_insufficient :
+    celEvaluateStaticCheck true (celEval (.obj [("config", .obj [("enabled", .str "true")])]) (.get ["config", "enabled"]))
+      = .panic := by
+  decide
+
 /-! ## the three defects on the pre-fix code shapes (witnesses = corpus/C19) -/
 
 /-- C19-a: a current condition without `message` panics in the pre-fix loop body. -/
@@ -412,6 +445,11 @@ theorem modelOut_never_panic (s : Scn) : ∀ _ : modelOut s = Out.panic, False :
     · cases h
     · exact ofOutcome_ne _ _ (no_panic_parseCM _) h
   · exact ofOutcome_ne _ _ (no_panic_renderPackage _ _) h
+  · split at h
+    · split at h
+      · exact ofOutcome_ne _ _ (no_panic_celPlace _ _ _) h
+      · cases h
+    · cases h
   all_goals cases h
 
 open Pko.Drv.C19 in
@@ -449,6 +487,25 @@ from the repository equals, row for row, the hand classification
 panic, single-value type assertion or index/slice expression breaks this theorem. -/
 theorem census_classified :
     Pko.Gen.PanicCensus.census = Pko.Model.PanicCensusExpect.expectedSites := by
+  decide
+
+set_option maxRecDepth 100000 in
+/-- **The run-time type checks that guard type assertions are where the classification says**:
+for every function with a `checkedGuard` entry, the rows the extractor regenerates from the
+repository — asserted expression + the conditions on the asserted value that dominate the
+assertion — equal the expected ones.  In particular `out.Value().(bool)` in `CelCtx.evaluate` is
+dominated by the early return on `!reflect.DeepEqual(out.Type(), cel.BoolType)`, a check of the
+RUN-TIME type of the evaluated value.  Removing that check, moving it behind the assertion or
+replacing it by a check that does not inspect `out` breaks this theorem. -/
+theorem assert_guards_checked :
+    Pko.Gen.PanicCensus.assertGuards.filter
+        (fun r => Pko.Model.PanicCensusExpect.guardedFns.contains (r.1, r.2.1)) =
+      Pko.Model.PanicCensusExpect.expectedGuardRows := by
+  decide
+
+/-- non-vacuity: the guard facts are not empty and include the CEL result assertion -/
+example : ("internal/packages/internal/packagerender/celctx/cel.go", "CelCtx.evaluate", "out.Value().(bool)",
+    "unless !reflect.DeepEqual(out.Type(), cel.BoolType)") ∈ Pko.Model.PanicCensusExpect.expectedGuardRows := by
   decide
 
 end Pko.Props.C19
